@@ -155,7 +155,7 @@ def build_cases(ctx, H, lvl, tag, ncurves, nscal):
             add("xADD", H.line(lvl, "xADD", P=pt(x), Q=pt(y), PQ=pt(d)), xcheck(E, S), i)
             for op, A in (("xDBLADD", A24), ("xDBLADD@0", A24), ("xDBLADD_normalized", A24n), ("xDBLADD_normalized@0", A24n)):
                 chk1, chk2 = xcheck(E, E.add(X, X), 0), xcheck(E, S, 1)
-                add(op.split("@")[0], H.line(lvl, op, P=pt(x), Q=pt(y), PQ=pt(d), A24=pt(A)),
+                add(op.split("@")[0], H.line(lvl, op, P=pt(x), Q=pt(y), PQ=pt(d), A24=pt(A), R_in=pt(x), S_in=pt(y)),
                     (lambda c1, c2: (lambda F, I: c1(F, I) or c2(F, I)))(chk1, chk2), i)
         # j-invariant: curve struct = A, C, A24.x, A24.z | flag
         jexp = E.j()
@@ -284,7 +284,7 @@ def search(ctx, state, ncurves=4, nscal=9):
         fails, _, _ = evaluate(ctx, H, cases, lvl, with_model=False)
         if fails:
             c, rec = fails[0]
-            return ("oracle:%s:lvl%d" % (c["cls"], lvl), "%s returns a wrong x-coordinate (affine group-law oracle)" % c["cls"],
+            return ("oracle:%s:lvl%d" % (c["cls"], lvl), "%s returns a wrong result (affine group-law oracle)" % c["cls"],
                     dict(rec, how_to_replay="compile tools/harness/drv_ec.c (see tools/slcorr.py) and feed `op`; compare X/Z with the expected x",
                          failures_total=len(fails), other_failing_classes=sorted({f[0]["cls"] for f in fails})))
     return None
@@ -299,6 +299,8 @@ def run(ctx):
     state = {}
     quick = ctx.quick
     ok = vlib.proof_stage(ctx, ["SqiProps.C08"], searcher=lambda: search(ctx, state))
+    if any(v["key"].startswith("translator:") for v in ctx.violations):
+        return dict(level="proof", rule="(translator rejected the sources; nothing else was run)")
     dok, dout, dfail = ctx.lake(["driver"])
     if not dok:
         ctx.obligation("model driver builds", False, dout[-400:])
